@@ -178,3 +178,27 @@ prop("C13",
      level_note="Trusted: ref.KeySpecs (Redis 5.0 server.c first/last/step) and ref.KeySpec.Rewrite. Two-key fixed-arity commands (rename, smove, rpoplpush) are rewritten per the statement even though the result may be an invalid Redis command: that is what the statement prescribes.",
      assumptions=["commands arrive lower-cased as redis.ParseArgs delivers them",
                   "argument lists have a valid arity for the command (as a master emits them)"])
+
+prop("C02",
+     title="Restoring an entry leaves the target key equal to the source key",
+     quick=[{"re": "^TestC02$", "checks": 5000},
+            {"re": "^TestC02Chunked$", "checks": 6}],
+     thorough=[{"re": "^TestC02$", "checks": 400000, "shards": 10, "timeout": 1700},
+               {"re": "^TestC02Chunked$", "checks": 200, "shards": 5, "timeout": 1700}],
+     rule="entry x configuration x target state. Entry: every type/encoding of the RDB generator (incl. stream, quicklist, zipmap, ziplist, intset, "
+          "LZF), collection sizes at 1,2,3,63-65,99-101,199-201,300, expiry none/past/future against the shifted clock, idle/freq hints, keys with "
+          "hash tags. Configuration (sanitiser post-conditions): target.version fetched (full string, big_key_threshold in {1,len-1,len,len+1,500MB}) "
+          "or configured ('5','5.0','5.0.7'... => threshold 1), TargetReplace by the sanitiser's prefix rule, key_exists in {none,rewrite,ignore}, "
+          "time shift 0,+-1h,+-400d, replace_hash_tag. Target: model Redis 2.8/3.2/4.0/5.0/6.0/7.0 over loopback TCP (REPLACE/IDLETIME/FREQ support, "
+          "busy-key wording, value types rejected with 'Bad data format' per version), key absent / present with same or other type, with/without ttl. "
+          "Oracle: model keyspace after utils.RestoreRdbEntry: success => logical value equal (payload registry: a payload that is not byte-identical to "
+          "the entry's payload is flagged) and ttl within [ExpireAt-t_after, ExpireAt-t_before] (expired => 1 ms, none => none); existing key: rewrite "
+          "=> source value, none => error and target untouched, ignore => no error and untouched; no abort. Chunked: a 16-40 MiB hash from the real "
+          "parser restored chunk by chunk. Routes are classified from the command log (route x policy x existing cells in the evidence). "
+          "Non-trivial: pre-existing key, or a route other than a single RESTORE, or an expiry. Distinct = hash of (payload, key, case description).",
+     technique="property-based testing (rapid) against a reference model of Redis (model-based oracle over the resulting keyspace and command log)",
+     level_text="Generated search over entry x configuration x target-state with a model Redis that follows redis-5 restoreCommand ordering; every reachable route x policy cell is counted in the evidence. Testing-level: found six genuine defects on the pinned tree (all fixed).",
+     level_note="Trusted: harness/mredis (model Redis), the RDB generator, ref.CRC64. The tool's real redigo connection over loopback TCP is used. Stream entries to targets older than 5.0 and empty collections are excluded by construction (counted).",
+     assumptions=["a configured target.version names the target's real major version",
+                  "NaN scores are not generated (Redis never stores them)",
+                  "ucloud key prefix stripping (source.rdb.special_cloud) is not exercised"])
